@@ -35,6 +35,7 @@ def run(idx: ProgramIndex, rep: Report, tier: str):
     distances(idx, rep)
     fixed_noise(idx, rep)
     noise_defaults(idx, rep)
+    one_source(idx, rep)
 
 
 def clamp_discipline(fi: FuncInfo, setting: str, value_names: Optional[List[str]] = None) -> List[str]:
@@ -195,3 +196,78 @@ def noise_defaults(idx: ProgramIndex, rep: Report):
                     rep.add("C07-4", "%s:%s:%s" % (cls.module.name, cls.qualname, const_str(c.args[0])), "%s:%d" % (m.module.relpath, c.lineno), ok,
                             "default constraint %s(...) is lower-bounded" % default if ok else "noise parameter %s has no lower-bounded default constraint (default: %s): the noise can reach zero or become negative" % (const_str(c.args[0]), default), {})
     rep.floor("C07-4", "learned noise parameters", n, 5)
+
+
+# ---- C07-6 ---------------------------------------------------------------------------------------------------------
+def one_source(idx: ProgramIndex, rep: Report):
+    """'Adding observations never increases a posterior variance' - also for the exact GP that a variational model builds over its
+    inducing points, whose training covariance is K_ZZ + D with a full pseudo-noise covariance D.  That model is made by *overriding*
+    an attribute of a freshly built prediction strategy (`pred_strat.lik_train_train_covar = K + D`).  The override is sound only if
+    the attribute is the single source of that quantity: a method of the strategy that recomputes it from its ingredients
+    (`self.likelihood(prior, train_inputs)`) returns the un-overridden value (K + sigma^2 I) - unless the overrider also plants that
+    method's memo entry.  Rule: for every attribute of a prediction strategy that code outside the class assigns, every method of the
+    class that re-derives the attribute's defining expression is either memoised-and-planted by the overrider, or reads the attribute."""
+    from ..index import calls_in, chain, const_str, src
+    rep.rule("C07-6", "an attribute of a prediction strategy that other code overrides is the single source of its quantity: no method of the strategy re-derives it from its ingredients (unless the overrider plants that method's memo entry)")
+    strategies = [c for c in idx.package_classes() if c.name.endswith("PredictionStrategy")]
+    derived = {}
+    for c in strategies:
+        init = c.methods.get("__init__")
+        if init is None:
+            continue
+        for a in ast.walk(init.node):
+            if isinstance(a, ast.Assign) and len(a.targets) == 1 and isinstance(a.targets[0], ast.Attribute) and chain(a.targets[0].value) == "self":
+                derived.setdefault(a.targets[0].attr, []).append((c, a))
+    n = 0
+    for fi in sorted(idx.all_functions(), key=lambda f: (f.module.name, f.qualname)):
+        if fi.cls is not None and fi.cls in strategies:
+            continue
+        for a in ast.walk(fi.node):
+            if not (isinstance(a, ast.Assign) and len(a.targets) == 1 and isinstance(a.targets[0], ast.Attribute) and isinstance(a.targets[0].value, ast.Name) and a.targets[0].value.id not in ("self", "cls")):
+                continue
+            attr, obj = a.targets[0].attr, a.targets[0].value.id
+            if attr not in derived or attr.startswith("_memoize"):
+                continue
+            # is obj a prediction strategy?  (bound from `<model>.prediction_strategy` or a strategy constructor)
+            is_strat = any(isinstance(b, ast.Assign) and any(isinstance(t, ast.Name) and t.id == obj for t in b.targets) and ("prediction_strategy" in src(b.value) or "PredictionStrategy" in src(b.value)) for b in ast.walk(fi.node))
+            if not is_strat:
+                continue
+            planted = {const_str(c.args[1]) for c in calls_in(fi.node) if (chain(c.func) or "").split(".")[-1] == "add_to_cache" and len(c.args) >= 3 and isinstance(c.args[0], ast.Name) and c.args[0].id == obj}
+            for cls, init_assign in derived[attr]:
+                # what defines the attribute: the calls on self in its derivation (followed through locals of __init__)
+                init = cls.methods["__init__"]
+                binds = {b.targets[0].id: b.value for b in ast.walk(init.node) if isinstance(b, ast.Assign) and len(b.targets) == 1 and isinstance(b.targets[0], ast.Name)}
+                expr = init_assign.value
+                sig = set()
+                work, seen = [expr], set()
+                while work:
+                    e = work.pop()
+                    for x in ast.walk(e):
+                        if isinstance(x, ast.Call) and isinstance(x.func, ast.Attribute) and chain(x.func.value) == "self":
+                            sig.add(x.func.attr)
+                        if isinstance(x, ast.Call) and isinstance(x.func, ast.Name) and x.func.id in init.params:
+                            sig.add(x.func.id)
+                        if isinstance(x, ast.Name) and x.id in binds and x.id not in seen:
+                            seen.add(x.id)
+                            work.append(binds[x.id])
+                if not sig:
+                    continue
+                n += 1
+                rederive = []
+                for k in [cls] + [k2 for k2 in strategies if k2.is_subclass_of(cls) and k2 is not cls]:
+                    for mname, m in k.methods.items():
+                        if mname == "__init__":
+                            continue
+                        calls_ing = any(isinstance(x, ast.Call) and isinstance(x.func, ast.Attribute) and chain(x.func.value) == "self" and x.func.attr in sig for x in ast.walk(m.node))
+                        reads_attr = any(isinstance(x, ast.Attribute) and x.attr == attr and chain(x.value) == "self" for x in ast.walk(m.node))
+                        if calls_ing and not reads_attr:
+                            from . import c03
+                            cname = c03.cache_name_of(m)[0]
+                            if cname is not None and cname in planted:
+                                continue
+                            rederive.append("%s.%s" % (k.name, mname))
+                rep.add("C07-6", "%s:%s[%s.%s overridden]" % (fi.module.name, fi.qualname, cls.name, attr), "%s:%d" % (fi.module.relpath, a.lineno), not rederive,
+                        "every consumer reads the attribute (or its memo entry is planted alongside)" if not rederive else
+                        "`%s.%s = ...` replaces what __init__ derived through self.%s(...), but %s re-derive(s) it from the same ingredients and never see(s) the override: with fast_pred_var off the predictive covariance of the overridden model is the one of the un-overridden model (a variational fantasy model gets a *larger* variance after conditioning)" % (
+                            obj, attr, "/".join(sorted(sig)), ", ".join(sorted(set(rederive)))), {"planted": sorted(x for x in planted if x)})
+    rep.floor("C07-6", "external overrides of derived strategy attributes", n, 1)
